@@ -41,5 +41,226 @@ TypeFails(c) ==
             : cfg \in SlotFails(c.slots[k])} : k \in DOMAIN c.slots}
 ErrFails(c) ==
   UNION {{<<"error", e, x>> : e \in (BadErrors \cap SeqToSet(c.errs[x]))} : x \in DOMAIN c.errs}
-CaseFails(c) == TypeFails(c) \cup ErrFails(c)
+
+(* C06's last sentence: the three configurations give the same types among themselves.  (With   *)
+(* TypeFails this is implied for slots that are right everywhere; it is a clause of its own so    *)
+(* that a documented deviation which holds under one configuration only is still reported.)       *)
+CfgPairs == {<<"pythonpath", "imports_map">>, <<"pythonpath", "pickled">>, <<"imports_map", "pickled">>}
+PairName(pr) == pr[1] \o "/" \o pr[2]
+AgreeFails(c) ==
+  UNION {{<<"agree", k, PairName(pr)>> :
+            pr \in {q \in CfgPairs : ~TypeEq(c.slots[k].tb[q[1]], c.slots[k].tb[q[2]])}}
+         : k \in DOMAIN c.slots}
+CaseFails(c) == TypeFails(c) \cup ErrFails(c) \cup AgreeFails(c)
+
+(* ============================================================================================ *)
+(* WORLDS: the reader sees a small import DAG of analysed modules, each through its stub.        *)
+(*                                                                                              *)
+(* Type terms in worlds keep module qualification: <<"cls", "c1.Cfg", <<>>>>,                     *)
+(* <<"gen", "m1.P", <<int, str>>>> (an instance of a user generic class),                         *)
+(* <<"tparam", "V", <<>>>> (a type parameter inside a class declaration).                         *)
+(*                                                                                              *)
+(* A declaration table D == [names, frets, classes]:                                             *)
+(*   names, frets  the LAST upstream module's variables / function results,                      *)
+(*   classes       every class of every module of the world, keyed by its qualified name:        *)
+(*                 [tpl |-> <<type-parameter names, in declaration order>>,                       *)
+(*                  bases |-> <<user-class bases as type terms>>, attrs, rets |-> name -> type]    *)
+(* The same operators read the MODEL's table (ModelD(w): what the world's modules declare by     *)
+(* construction) and the RECORDED table (what the real analyses of the upstream modules          *)
+(* inferred, taken from their ASTs).  A read is [s |-> start, p |-> <<steps>>]:                   *)
+(*   start [k |-> "var", n]   L.n            [k |-> "call", n]  L.n()                             *)
+(*         [k |-> "param", t] a reader function's parameter annotated with type t                *)
+(*   step  [k |-> "attr", n]  .n             [k |-> "meth", n]  .n()                              *)
+(* PathType(D, r) is the type the upstream analyses give to the read: declarations are looked up *)
+(* in the class of the receiver, then in its bases, and the type parameters of a generic class    *)
+(* are bound to the receiver's arguments BY POSITION in the class's template.                    *)
+(* ============================================================================================ *)
+TCls(n) == <<"cls", n, <<>>>>
+TGen(n, args) == <<"gen", n, args>>
+TPar(n) == <<"tparam", n, <<>>>>
+TAny == <<"any", "", <<>>>>
+TUnknown == <<"unknown", "", <<>>>>
+
+RECURSIVE SubstT(_, _, _)
+SubstT(t, tpl, args) ==
+  IF t[1] = "tparam"
+    THEN IF \E x \in DOMAIN tpl : tpl[x] = t[2]
+           THEN LET x == CHOOSE y \in DOMAIN tpl : tpl[y] = t[2]
+                IN IF x \in DOMAIN args THEN args[x] ELSE TAny
+           ELSE t
+    ELSE <<t[1], t[2], [k \in DOMAIN t[3] |-> SubstT(t[3][k], tpl, args)]>>
+
+(* member `n` (kind "attrs" | "rets") of class q instantiated with args; own declarations first,  *)
+(* then the first base that has it (single inheritance is all the worlds use)                     *)
+RECURSIVE Member(_, _, _, _, _, _)
+Member(CT, q, args, kind, n, fuel) ==
+  IF q \notin DOMAIN CT \/ fuel = 0 THEN TUnknown
+  ELSE LET c == CT[q] IN
+       IF n \in DOMAIN c[kind] THEN SubstT(c[kind][n], c.tpl, args)
+       ELSE IF Len(c.bases) = 0 THEN TUnknown
+       ELSE LET b == SubstT(c.bases[1], c.tpl, args) IN Member(CT, b[2], b[3], kind, n, fuel - 1)
+
+StepType(CT, t, st) ==
+  IF t[1] \in {"cls", "gen"}
+    THEN Member(CT, t[2], t[3], IF st.k = "attr" THEN "attrs" ELSE "rets", st.n, 4)
+    ELSE TUnknown
+RECURSIVE Walk(_, _, _)
+Walk(CT, t, p) == IF p = <<>> THEN t ELSE Walk(CT, StepType(CT, t, Head(p)), Tail(p))
+StartType(D, s) ==
+  CASE s.k = "var" -> IF s.n \in DOMAIN D.names THEN D.names[s.n] ELSE TUnknown
+    [] s.k = "call" -> IF s.n \in DOMAIN D.frets THEN D.frets[s.n] ELSE TUnknown
+    [] s.k = "param" -> s.t
+PathType(D, r) == Walk(D.classes, StartType(D, r.s), r.p)
+
+(* ---------------------------------------------------------------- the model of a world's modules *)
+Fixtures == {"c1", "c2"}
+UpName(k) == "m" \o ToString(k)
+Num(pre, x) == pre \o ToString(x)
+Entry(tpl, bases, attrs, rets, an, rn) ==
+  [tpl |-> tpl, bases |-> bases, attrs |-> attrs, rets |-> rets, an |-> an, rn |-> rn]
+NoFn == [x \in {} |-> TAny]
+(* fixture modules: two classes each; `Cfg` exists in both with a different `level`               *)
+FixCT ==
+  ("c1.Cfg" :> Entry(<<>>, <<>>, "level" :> TCls("int"), NoFn, <<"level">>, <<>>)) @@
+  ("c1.One" :> Entry(<<>>, <<>>, "level" :> TCls("bytes"), NoFn, <<"level">>, <<>>)) @@
+  ("c2.Cfg" :> Entry(<<>>, <<>>, "level" :> TCls("str"), NoFn, <<"level">>, <<>>)) @@
+  ("c2.Two" :> Entry(<<>>, <<>>, "level" :> TCls("float"), NoFn, <<"level">>, <<>>))
+OwnName(m) == IF m = "c1" THEN "One" ELSE "Two"
+
+(* family "dag": w.mods[k] = <<imports of upstream module m_k>>, an import is                      *)
+(*   [t |-> imported module, a |-> alias name ("" = plain `import t`),                             *)
+(*    u |-> how m_k exposes the imported module's class: "var" x_i = ref.C(), "fn" def f_i():      *)
+(*          return ref.C(), "meth" method g_i of m_k's own class T,                                *)
+(*    c |-> "Cfg" | "Own" (which class of a fixture module; upstream modules expose T)]            *)
+ImpClass(imp) ==
+  IF imp.t \in Fixtures THEN (IF imp.c = "Cfg" THEN "Cfg" ELSE OwnName(imp.t)) ELSE "T"
+ImpType(imp) == TCls(imp.t \o "." \o ImpClass(imp))
+TagT == <<"float", "bytes", "bool">>
+Idx(imps, u) == SelectSeq([x \in DOMAIN imps |-> x], LAMBDA x : imps[x].u = u)
+UpEntry(imps, k) ==
+  LET ms == Idx(imps, "meth") IN
+  Entry(<<>>, <<>>, "tag" :> TCls(TagT[k]),
+        [n \in {Num("g", ms[x]) : x \in DOMAIN ms} |->
+           ImpType(imps[CHOOSE y \in DOMAIN imps : Num("g", y) = n])],
+        <<"tag">>, [x \in DOMAIN ms |-> Num("g", ms[x])])
+DagCT(w) ==
+  FixCT @@ [q \in {UpName(k) \o ".T" : k \in DOMAIN w.mods} |->
+              LET k == CHOOSE y \in DOMAIN w.mods : UpName(y) \o ".T" = q IN UpEntry(w.mods[k], k)]
+
+(* family "gen": m1 declares `class P(Generic[params])` with, per position x, an attribute at_x    *)
+(* typed by the parameter ("plain") or by List[parameter] ("list"), a method get_x returning the   *)
+(* parameter and a plain attribute n: int.  The LAST module (m1 itself: loc "same", or m2 which    *)
+(* imports m1 plainly / under alias u) declares mk() -> P[Inst1] (annotated), mk2() and p          *)
+(* (inferred P[Inst2]) and, if w.sub, `class Q(P[Inst1])` with mkq() -> Q.                         *)
+Inst1 == <<TCls("int"), TCls("str"), TCls("float")>>
+Inst2 == <<TCls("bytes"), TCls("bool"), TCls("complex")>>
+GenLast(w) == IF w.loc = "same" THEN "m1" ELSE "m2"
+Shape(sh, t) == IF sh = "list" THEN TGen("list", <<t>>) ELSE t
+GenAN(w) == [x \in DOMAIN w.params |-> Num("at", x)] \o <<"n">>
+GenRN(w) == [x \in DOMAIN w.params |-> Num("get", x)]
+GenCT(w) ==
+  LET np == Len(w.params)
+      pe == Entry(w.params, <<>>,
+                  [n \in {Num("at", x) : x \in 1 .. np} \cup {"n"} |->
+                     IF n = "n" THEN TCls("int")
+                     ELSE LET x == CHOOSE y \in 1 .. np : Num("at", y) = n
+                          IN Shape(w.shapes[x], TPar(w.params[x]))],
+                  [n \in {Num("get", x) : x \in 1 .. np} |->
+                     TPar(w.params[CHOOSE y \in 1 .. np : Num("get", y) = n])],
+                  GenAN(w), GenRN(w))
+      qe == Entry(<<>>, <<TGen("m1.P", SubSeq(Inst1, 1, np))>>, NoFn, NoFn, GenAN(w), GenRN(w))
+  IN IF w.sub THEN ("m1.P" :> pe) @@ ((GenLast(w) \o ".Q") :> qe) ELSE ("m1.P" :> pe)
+
+LastOf(w) == IF w.fam = "dag" THEN UpName(Len(w.mods)) ELSE GenLast(w)
+ModelD(w) ==
+  IF w.fam = "dag" THEN
+    LET imps == w.mods[Len(w.mods)]
+        vs == Idx(imps, "var")
+        fs == Idx(imps, "fn")
+    IN [names |-> [n \in {Num("x", vs[x]) : x \in DOMAIN vs} |->
+                     ImpType(imps[CHOOSE y \in DOMAIN imps : Num("x", y) = n])],
+        frets |-> [n \in {Num("f", fs[x]) : x \in DOMAIN fs} |->
+                     ImpType(imps[CHOOSE y \in DOMAIN imps : Num("f", y) = n])],
+        classes |-> DagCT(w)]
+  ELSE
+    LET np == Len(w.params)
+        p1 == TGen("m1.P", SubSeq(Inst1, 1, np))
+        p2 == TGen("m1.P", SubSeq(Inst2, 1, np))
+    IN [names |-> "p" :> p2,
+        frets |-> IF w.sub THEN ("mk" :> p1) @@ ("mk2" :> p2) @@ ("mkq" :> TCls(GenLast(w) \o ".Q"))
+                  ELSE ("mk" :> p1) @@ ("mk2" :> p2),
+        classes |-> GenCT(w)]
+
+(* ---------------------------------------------------------------- Derive: the reader's reads   *)
+St(k, n, t) == [k |-> k, n |-> n, t |-> t]
+Starts(w) ==
+  IF w.fam = "dag" THEN
+    LET imps == w.mods[Len(w.mods)] IN
+    [x \in DOMAIN imps |->
+       IF imps[x].u = "var" THEN St("var", Num("x", x), TAny)
+       ELSE IF imps[x].u = "fn" THEN St("call", Num("f", x), TAny)
+       ELSE St("param", "o", TCls(LastOf(w) \o ".T"))]
+  ELSE
+    <<St("call", "mk", TAny), St("call", "mk2", TAny), St("var", "p", TAny)>>
+    \o (IF w.loc = "same" THEN <<St("param", "o", TGen("m1.P", SubSeq(Inst1, 1, Len(w.params))))>>
+        ELSE <<>>)
+    \o (IF w.sub THEN <<St("call", "mkq", TAny), St("param", "o", TCls(GenLast(w) \o ".Q"))>>
+        ELSE <<>>)
+MaxSteps(w) == IF w.fam = "dag" THEN 3 ELSE 1
+
+RECURSIVE Flat(_)
+Flat(ss) == IF ss = <<>> THEN <<>> ELSE Head(ss) \o Flat(Tail(ss))
+(* every chain of 1..d steps through the members the model's classes declare (or inherit)        *)
+RECURSIVE Chains(_, _, _)
+Chains(CT, t, d) ==
+  IF d = 0 \/ t[1] \notin {"cls", "gen"} THEN <<>>
+  ELSE IF t[2] \notin DOMAIN CT THEN <<>>
+  ELSE LET c == CT[t[2]]
+           ms == [x \in DOMAIN c.an |-> [k |-> "attr", n |-> c.an[x]]]
+                 \o [x \in DOMAIN c.rn |-> [k |-> "meth", n |-> c.rn[x]]]
+       IN Flat([x \in DOMAIN ms |->
+                  LET sub == Chains(CT, StepType(CT, t, ms[x]), d - 1)
+                  IN <<<<ms[x]>>>> \o [y \in DOMAIN sub |-> <<ms[x]>> \o sub[y]]])
+ReadsOf(w) ==
+  LET D == ModelD(w)
+      ss == Starts(w)
+  IN Flat([x \in DOMAIN ss |->
+             LET ch == Chains(D.classes, StartType(D, ss[x]), MaxSteps(w))
+             IN (IF ss[x].k = "param" THEN <<>> ELSE <<[s |-> ss[x], p |-> <<>>]>>)
+                \o [y \in DOMAIN ch |-> [s |-> ss[x], p |-> ch[y]]]])
+
+(* what makes a world interesting (vacuity guards of the driver)                                 *)
+Collides(w) ==
+  w.fam = "dag" /\
+  \E k1, k2 \in DOMAIN w.mods : k1 # k2 /\
+    \E x \in DOMAIN w.mods[k1], y \in DOMAIN w.mods[k2] :
+      /\ w.mods[k1][x].a # "" /\ w.mods[k1][x].a = w.mods[k2][y].a
+      /\ w.mods[k1][x].t # w.mods[k2][y].t
+TVRank == [K |-> 1, T |-> 2, V |-> 3]
+NonAlpha(w) ==
+  w.fam = "gen" /\ \E x, y \in DOMAIN w.params : x < y /\ TVRank[w.params[y]] < TVRank[w.params[x]]
+
+(* ---------------------------------------------------------------- verdict for a recorded world *)
+(* c == [fam, w, reads, decls |-> recorded D, seen |-> [cfg |-> <<type of read j in B>>], errs]    *)
+(*   "wtype"  B's type of a read differs from what the upstream analyses inferred for it           *)
+(*   "wagree" two configurations give B different types for the same read                         *)
+(*   "error"  spurious import / pyi error in B                                                    *)
+(*   "mach:reads" the driver's reads are not the spec's Derive (machinery), "pred": the recorded   *)
+(*   upstream declarations differ from the model's (a matter of the upstream analysis, logged)    *)
+WTypeFails(c) ==
+  UNION {{<<"wtype", j, cfg>> :
+            cfg \in {x \in DOMAIN c.seen :
+                       LET e == PathType(c.decls, c.reads[j])
+                       IN e[1] # "unknown" /\ ~TypeEq(c.seen[x][j], e)}}
+         : j \in DOMAIN c.reads}
+WAgreeFails(c) ==
+  UNION {{<<"wagree", j, PairName(pr)>> :
+            pr \in {q \in CfgPairs : ~TypeEq(c.seen[q[1]][j], c.seen[q[2]][j])}}
+         : j \in DOMAIN c.reads}
+WPredFails(c) ==
+  {<<"pred", j, "">> : j \in {x \in DOMAIN c.reads :
+       ~TypeEq(PathType(c.decls, c.reads[x]), PathType(ModelD(c.w), c.reads[x]))}}
+WorldFails(c) ==
+  IF c.reads # ReadsOf(c.w) THEN {<<"mach:reads", 0, "">>}
+  ELSE WTypeFails(c) \cup WAgreeFails(c) \cup ErrFails(c) \cup WPredFails(c)
 =============================================================================
